@@ -283,6 +283,7 @@ type caseStats struct {
 	Methods       int // legacy client methods whose call was located and compared
 	StreamIndexes int // Streams[i] comparisons
 	TypeChecked   int // emitted files type-checked
+	DescRefs      int // references to a service descriptor variable compared with the option-selected name
 	Observed      string
 }
 
@@ -534,8 +535,12 @@ func checkResponse(c caseSpec, rm *requestModel, res *pluginResult) ([]finding, 
 			continue
 		}
 		asts := []*ast.File{cf}
+		declared := topLevelVars(cf)
 		for _, ef := range emitted {
 			asts = append(asts, ef.AST)
+			n, dfs := checkDescRefs(c, o, rm, ef, declared)
+			st.DescRefs += n
+			fs = append(fs, dfs...)
 		}
 		var terrs []string
 		conf := types.Config{Importer: ci, Error: func(err error) {
@@ -732,6 +737,137 @@ func checkResponse(c caseSpec, rm *requestModel, res *pluginResult) ([]finding, 
 	}
 	st.Observed = fmt.Sprintf("files=%d registrations=%d methods=%d stream-indexes=%d typechecked=%d", len(files), st.Registrations, st.Methods, st.StreamIndexes, st.TypeChecked)
 	return fs, st
+}
+
+// ---- file-wide clause on service-descriptor references ---------------------------
+//
+// Whatever the place (registration function, stream stub, anything else), every
+// identifier in an emitted file that names a service descriptor variable must be
+// the variable the legacy_desc_names option selects for a service of the request,
+// all such identifiers in one file must follow the same naming scheme, and each
+// must be a variable the companion (= what protoc-gen-go-grpc of the targeted
+// generation declares) has.
+
+var descIdentRE = regexp.MustCompile(`^_?[A-Za-z0-9]+_[sS]erviceDesc$`)
+
+type descRef struct {
+	Name      string
+	Site      string // selector name of the innermost enclosing call (RegisterService, NewStream, ...) or "other"
+	Func      string // enclosing function
+	Qualified bool   // written as pkg.Name
+}
+
+func topLevelVars(f *ast.File) map[string]bool {
+	out := map[string]bool{}
+	for _, d := range f.Decls {
+		gd, ok := d.(*ast.GenDecl)
+		if !ok || gd.Tok != token.VAR {
+			continue
+		}
+		for _, sp := range gd.Specs {
+			for _, n := range sp.(*ast.ValueSpec).Names {
+				out[n.Name] = true
+			}
+		}
+	}
+	return out
+}
+
+func descRefs(f *ast.File, candidate func(string) bool) []descRef {
+	var out []descRef
+	var stack []ast.Node
+	ast.Inspect(f, func(n ast.Node) bool {
+		if n == nil {
+			stack = stack[:len(stack)-1]
+			return true
+		}
+		stack = append(stack, n)
+		id, ok := n.(*ast.Ident)
+		if !ok || !candidate(id.Name) {
+			return true
+		}
+		r := descRef{Name: id.Name, Site: "other"}
+		if len(stack) >= 2 {
+			if sel, ok := stack[len(stack)-2].(*ast.SelectorExpr); ok && sel.Sel == id {
+				r.Qualified = true
+			}
+		}
+		for i := len(stack) - 2; i >= 0; i-- {
+			if call, ok := stack[i].(*ast.CallExpr); ok && r.Site == "other" {
+				if sel, ok := call.Fun.(*ast.SelectorExpr); ok {
+					r.Site = sel.Sel.Name
+				}
+			}
+			if fd, ok := stack[i].(*ast.FuncDecl); ok {
+				r.Func = fd.Name.Name
+			}
+		}
+		out = append(out, r)
+		return true
+	})
+	return out
+}
+
+func schemeName(legacy bool) string {
+	if legacy {
+		return "_<Svc>_serviceDesc"
+	}
+	return "<Svc>_ServiceDesc"
+}
+
+func checkDescRefs(c caseSpec, o optModel, rm *requestModel, ef *emittedFile, declared map[string]bool) (int, []finding) {
+	// both spellings of the descriptor of every service of the request
+	type cand struct {
+		svc    *svcModel
+		legacy bool
+	}
+	cands := map[string]cand{}
+	for _, f := range rm.Files {
+		for _, s := range f.Svcs {
+			cands[optModel{LegacyDesc: true}.descVar(s)] = cand{s, true}
+			cands[optModel{LegacyDesc: false}.descVar(s)] = cand{s, false}
+		}
+	}
+	refs := descRefs(ef.AST, func(n string) bool {
+		_, ok := cands[n]
+		return ok || descIdentRE.MatchString(n)
+	})
+	var fs []finding
+	seen := map[string]bool{}
+	add := func(detail, what string) {
+		if !seen[detail] {
+			seen[detail] = true
+			fs = append(fs, finding{"desc-ref", detail, what})
+		}
+	}
+	schemes := map[string]bool{}
+	for _, r := range refs {
+		cd, known := cands[r.Name]
+		legacy := strings.HasPrefix(r.Name, "_")
+		if known {
+			legacy = cd.legacy
+		}
+		schemes[r.Site+":"+schemeName(legacy)] = true
+		switch {
+		case r.Qualified:
+			add(fmt.Sprintf("qualified|site=%s|opt=%s", r.Site, c.OptKey), fmt.Sprintf("%s (in %s) refers to the service descriptor as a qualified name ..%s; the descriptor of a file's own service is a variable of the file's own package", ef.Name, r.Func, r.Name))
+		case legacy != o.LegacyDesc:
+			add(fmt.Sprintf("not-option-selected|site=%s|scheme=%s|opt=%s", r.Site, schemeName(legacy), c.OptKey), fmt.Sprintf("%s (in %s, argument of %s) refers to %s, but legacy_desc_names=%v selects %s (declared by the protoc-gen-go-grpc code of that generation: %v)", ef.Name, r.Func, r.Site, r.Name, o.LegacyDesc, schemeName(o.LegacyDesc), declared[r.Name]))
+		case !declared[r.Name]:
+			add(fmt.Sprintf("undeclared|site=%s|scheme=%s|opt=%s", r.Site, schemeName(legacy), c.OptKey), fmt.Sprintf("%s (in %s, argument of %s) refers to %s, which the code generated by protoc-gen-go-grpc for legacy_desc_names=%v does not declare (it declares %s)", ef.Name, r.Func, r.Site, r.Name, o.LegacyDesc, schemeName(o.LegacyDesc)))
+		}
+	}
+	both := map[bool]bool{}
+	var used []string
+	for k := range schemes {
+		used = append(used, k)
+		both[strings.HasSuffix(k, ":"+schemeName(true))] = true
+	}
+	if len(both) > 1 {
+		sort.Strings(used)
+		add(fmt.Sprintf("mixed|%s|opt=%s", strings.Join(used, ","), c.OptKey), fmt.Sprintf("%s refers to service descriptors under both naming schemes: %s; one generated file must use the one scheme legacy_desc_names=%v selects (%s)", ef.Name, strings.Join(used, ", "), o.LegacyDesc, schemeName(o.LegacyDesc)))
+	}
+	return len(refs), fs
 }
 
 func svcIndex(s *svcModel) int {
